@@ -194,18 +194,28 @@ Qed.
 (* marshalling: every slice that is appended to is owned               *)
 (* =================================================================== *)
 
-Lemma safe_macpl_marshal (W : perm) n0 p : safe W n0 (h_macpl_marshal p) (fun _ => True).
-Proof. unfold h_macpl_marshal. destruct p; [step; auto|]. step. eapply safe_conseq; [apply safe_lit|auto]. Qed.
+Lemma safe_bytes_marshal (W : perm) n0 s : safe W n0 (h_bytes_marshal s) (fun b => fresh n0 b /\ own W n0 b).
+Proof. unfold h_bytes_marshal. repeat step. auto. Qed.
 
-Lemma safe_cmd_marshal (W : perm) n0 g c p : safe W n0 (h_cmd_marshal g c p) (fun _ => True).
+Lemma safe_macpl_marshal (W : perm) n0 p : safe W n0 (h_macpl_marshal p) (own W n0).
+Proof.
+  unfold h_macpl_marshal. destruct p.
+  - eapply safe_conseq; [apply safe_bytes_marshal|]. intros b [_ H]. exact H.
+  - step. eapply safe_conseq; [apply safe_lit|]. intros b [_ H]. exact H.
+Qed.
+
+Lemma safe_cmd_marshal (W : perm) n0 g c p : safe W n0 (h_cmd_marshal g c p) (own W n0).
 Proof.
   unfold h_cmd_marshal. step. destruct p as [p|]; [|step; auto].
   eapply safe_bind; [apply safe_macpl_marshal|]. intros ps _.
-  eapply safe_conseq; [apply safe_app_sl; auto|auto].
+  apply safe_app_sl. assumption.
 Qed.
 
-Lemma safe_item_marshal (W : perm) n0 g it : safe W n0 (h_item_marshal g it) (fun _ => True).
-Proof. destruct it; simpl; [apply safe_cmd_marshal|step; auto]. Qed.
+Lemma safe_item_marshal (W : perm) n0 g it : safe W n0 (h_item_marshal g it) (own W n0).
+Proof.
+  destruct it; simpl; [apply safe_cmd_marshal|].
+  eapply safe_conseq; [apply safe_bytes_marshal|]. intros b [_ H]. exact H.
+Qed.
 
 Lemma safe_opts_loop (W : perm) n0 g its opts :
   own W n0 opts -> safe W n0 (h_opts_loop g its opts) (own W n0).
@@ -229,8 +239,8 @@ Proof.
   revert out; induction its as [|it its IH]; intros out HO; cbn [h_frm_loop].
   - step. exact HO.
   - eapply safe_bind with (Q := fun _ => True).
-    + destruct it as [c p|s]; [|step; auto].
-      destruct port as [[|q]|]; try step. apply safe_cmd_marshal.
+    + destruct it as [c p|s]; [|eapply safe_conseq; [apply safe_bytes_marshal|auto]].
+      destruct port as [[|q]|]; try step. eapply safe_conseq; [apply safe_cmd_marshal|auto].
     + intros b _. step. now apply IH.
 Qed.
 
@@ -245,12 +255,12 @@ Proof.
   - destruct (h_frm m); step. assumption.
 Qed.
 
-Lemma safe_payload_marshal (W : perm) n0 g p : safe W n0 (h_payload_marshal g p) (fun _ => True).
+Lemma safe_payload_marshal (W : perm) n0 g p : safe W n0 (h_payload_marshal g p) (own W n0).
 Proof.
   destruct p as [m|s|v|]; simpl.
-  - eapply safe_conseq; [apply safe_mac_marshal|auto].
-  - step. auto.
-  - step. eapply safe_conseq; [apply safe_lit|auto].
+  - apply safe_mac_marshal.
+  - eapply safe_conseq; [apply safe_bytes_marshal|]. intros b [_ H]. exact H.
+  - step. eapply safe_conseq; [apply safe_lit|]. intros b [_ H]. exact H.
   - step.
 Qed.
 
@@ -454,6 +464,33 @@ Proof.
   split; [exact V|]. split; [apply own_noperm, Q; reflexivity|].
   intros b Hb l. rewrite <- V. apply view_upd_other. intros s Hs.
   unfold frame_old in HO. rewrite Forall_forall in HO. specialize (HO s Hs). lia.
+Qed.
+
+(* every MarshalBinary of a PART of a frame (FOpts / FRMPayload element, MAC command, command payload, FHDR,
+   MACPayload, the MACPayload field of a frame): no existing buffer written, and the output is memory that did not
+   exist before (or has no capacity): overwriting it cannot change anything the frame refers to *)
+Definition part_output_new (h : heap) (x : heap * outcome slice) : Prop :=
+  old_unchanged h (fst x) /\ forall out, snd x = Ok out -> length h <= sbuf out \/ scap out = 0.
+
+Theorem part_marshal_isolated : forall g h,
+  (forall it, part_output_new h (h_item_marshal g it h)) /\
+  (forall p, part_output_new h (h_macpl_marshal p h)) /\
+  (forall c p, part_output_new h (h_cmd_marshal g c p h)) /\
+  (forall x, part_output_new h (h_fhdr_marshal g x h)) /\
+  (forall m, part_output_new h (h_mac_marshal g m h)) /\
+  (forall p, part_output_new h (h_payload_marshal g p h)).
+Proof.
+  intros g h.
+  assert (K : forall m : M slice, safe noperm (length h) m (own noperm (length h)) -> part_output_new h (m h)).
+  { intros m S. destruct (S h (le_n _)) as [P Q]. split; [now apply pres_noperm_old|].
+    intros out E. apply own_noperm, Q, E. }
+  split; [|split; [|split; [|split; [|split]]]]; intros; apply K.
+  - apply safe_item_marshal.
+  - apply safe_macpl_marshal.
+  - apply safe_cmd_marshal.
+  - apply safe_fhdr_marshal.
+  - apply safe_mac_marshal.
+  - apply safe_payload_marshal.
 Qed.
 
 (* C10_encrypt_frame_rule: for every capacity of the argument *)
